@@ -79,6 +79,8 @@ def exc_desc(e):
     exceptions through their unique tag)."""
     if e is None:
         return None
+    if type(e).__name__ in ("ObservedErr", "ObservedBaseErr"):
+        return e.desc
     if isinstance(e, UserErr):
         return ("UserErr", _freeze(e.tag))
     if isinstance(e, UserBaseErr):
